@@ -14,7 +14,7 @@ INITS = {
     ("ATru", "ATru", "Und", "Und", "Und", "Und", "Und", "ATru", "ATru", "Und", "Und", "Und", "Und", "Und", "ATru"): "auto",
     ("Auth", "MDis", "Und", "Und", "Und", "Und", "Und", "MTru", "ATru", "Und", "Und", "Und", "Und", "Und", "ADis"): "mixed",
 }
-# step kinds every replay of a tour must contain (vacuity guard; counted by AtmTrace on observed facts)
+# step kinds the behaviours of a tour must contain (vacuity guard; counted by AtmTrace on the model's steps)
 MUST_SEE = ["change", "direct", "held", "fired", "cascade2", "discarded", "subsumed", "demoted", "outOfScope", "echo"]
 
 
@@ -130,21 +130,25 @@ def run(chk, replay=None):
         sums = list(ex.map(lambda it: vf.tlc_trace("AtmTrace.tla", "AtmTrace.cfg", it[1][1], tag=f"AtmTrace-{it[0]}", heap="4g"),
                            enumerate(reps)))
     kinds = {}
+    okinds = {}
     viols = []
     divs = []
     for i, s in enumerate(sums):
         for k, v in s["kinds"].items():
             kinds[k] = kinds.get(k, 0) + v
+        for k, v in s["okinds"].items():
+            okinds[k] = okinds.get(k, 0) + v
         viols += [dict(v, chunk=i) for v in s["viol"]]
         divs += s["divs"]
     chk.cov["traces_validated_against_impl"] = sum(s["cases"] for s in sums)
     chk.cov["trace_lines"] = sum(s["lines"] for s in sums)
     chk.cov["diverged_executions"] = sum(s["ndiv"] for s in sums)
     chk.cov["first_divergences"] = divs[:3]
-    chk.cov["step_kinds_observed"] = kinds
+    chk.cov["step_kinds_model"] = kinds
+    chk.cov["step_kinds_observed"] = okinds
     chk.cov["replay_wall_s"] = max(r["wall_s"] for r, _ in reps)
     chk.cov["trace_validation_wall_s"] = max(s["wall_s"] for s in sums)
-    chk.cov["exhaustive"] = True
+    chk.cov["exhaustive"] = tour_mode
     chk.cov["bounds"] = {"accounts": 3, "key_ids": 5, "policies": 2,
                          "model_check": "Atm.cfg: 3 senders, <=2 decisions/message, <=2 keys/manual decision, histories <=3; "
                                         "AtmDeep.cfg: 1 decision, histories <=4" if quick else
@@ -155,10 +159,6 @@ def run(chk, replay=None):
                        "validated by AtmTrace.tla, which evaluates the C18 step predicates on consecutive reported states")
     for b in behs[:2] + behs[len(behs) // 2:len(behs) // 2 + 2] + behs[-2:]:
         chk.sample(b)
-    if tour_mode:
-        missing = [k for k in MUST_SEE if not kinds.get(k)]
-        if missing:
-            raise vf.MachineryError("vacuity guard: the replay contains no step of kind " + ", ".join(missing))
     # 5. violations: one per (property, minimal behaviour prefix)
     seen = set()
     case_cache = {}
@@ -176,6 +176,11 @@ def run(chk, replay=None):
         chk.violation(sig, f"{v['prop']} fails at step {v['step']} ({v['e']}) of behaviour {beh_sig(cut)}", [cut] + lines)
         if len(chk.violations) >= 5:
             break
+    if tour_mode and not chk.violations:
+        # vacuity guard on the behaviours (kinds of steps the *model* takes along them)
+        missing = [k for k in MUST_SEE if not kinds.get(k)]
+        if missing:
+            raise vf.MachineryError("vacuity guard: the replayed behaviours contain no step of kind " + ", ".join(missing))
     chk.assumptions += [
         "key ids are fingerprints: every key id belongs to exactly one account (trust messages and manual decisions name a key only under its owner)",
         "the e2ee layer reports the true sender key: the sender key of a message from account x is a key of x",
